@@ -19,7 +19,8 @@ EXTRA = {
  "C11": " Also: a driver call with a pointer that is none of the driver's devices (CallOnUnknownDevice); a crash of the wrappers under a HAL call is a verdict.",
  "C12": " Also: a malformed pattern repeated right after a successful selection on the same device manager; a pattern the regex library itself refuses to compile must give an error (MalformedAccepted); refusals are confirmed together with the calls that preceded them.",
  "C14": " Also: storage_set on a running device (accepted / rejected), path names that extend or are proper prefixes of the previous one, the file a start creates must be the configured one whatever the URI spelling (OpenWrongPath).",
- "C15": " Also: one acquisition beyond 4 GiB (multi-GiB all-zero frames written sparsely by the OS seam, positions reported in 8-byte units), a sweep over every metadata length 0..419 (thorough 0..4199), storage_set on a running device.",
+ "C13": " Also: a destination field that refers to the source's own buffer (alias, as after a shallow struct copy) and is then copied over.",
+ "C15": " Also: a second acquisition into the same file / dataset directory with other metadata (only the last acquisition into a path is read back); one acquisition beyond 4 GiB (multi-GiB all-zero frames written sparsely by the OS seam, positions reported in 8-byte units), a sweep over every metadata length 0..419 (thorough 0..4199), storage_set on a running device.",
  "C16": " Also: storage_set on a running device (accepted / rejected: finding F10), OpenWrongPath.",
  "C17": " Also: the concurrent camera (real streamer thread under the deterministic scheduler) re-configured in shape / sample type while it runs and a frame call may be pending: nothing is written past the image reported with the frame and it is filled to its end.",
  "C18": " Also: sets that keep the trigger setting while running, shape changes while running; the trigger enabled while the camera runs is judged (FrameWithoutTriggerAfterEnable: frame already published + exposure in flight + a latch not provably consumed may still arrive), with the same accounting carried as ghost state in SimCamStream's Toggle configurations (every set switches the trigger over), so that TLC shows no interleaving of the code as it is can be refused by the rule.",
